@@ -615,10 +615,19 @@ def mon_frame(ctx):
 
 
 def _inner_lists(obj):
+    """Nested value lists as the public API hands them out: through .values and through item
+    access (p[i] returns the stored item itself)."""
     out = []
     for v in obj.values:
         if isinstance(v, list):
             out.append(v)
+    try:
+        for k in range(len(obj)):
+            v = obj[k]
+            if isinstance(v, list):
+                out.append(v)
+    except Exception:
+        pass
     return out
 
 
@@ -708,6 +717,27 @@ def mon_copy(ctx):
         if kind_of(new) != "doc" and new.parent is not None:
             return ("copy.detached", "export_leaf result reports a parent")
     return None
+
+
+def copy_on_corrupt(ctx):
+    """Identity part of the copy oracle; safe on a tree the copy op itself has broken."""
+    if ctx.raised or ctx.name not in ("clone", "export_leaf"):
+        return None
+    U = ctx.U
+    orig = ctx.args["x"]
+    new = U.objs[ctx.outcome[1]["new"]]
+    if new is orig:
+        return ("copy.disjoint", "%s returned the original object" % ctx.name)
+    a_objs = U.subtree(U.top(orig)) if ctx.name == "export_leaf" else U.subtree(orig)
+    # walk the copy through its own child lists only
+    for b in U.subtree(new):
+        if b is not new and any(b is a for a in a_objs):
+            return ("copy.disjoint", "the result of %s lists obj#%s, an object of the original" %
+                    (ctx.name, U.index(b)))
+    return None
+
+
+mon_copy.on_corrupt = copy_on_corrupt
 
 
 # ------------------------------------------------------------------------------- C19
